@@ -108,6 +108,8 @@ def _has_exit(ss):
             return True
         if s["k"] == "if" and (_has_exit(s["th"]) or _has_exit(s["el"])):
             return True
+        if s["k"] == "match" and (_has_exit(s["default"]) or any(_has_exit(c["body"]) for c in s["cases"])):
+            return True
     return False
 
 
@@ -116,6 +118,8 @@ def _has_suspend(ss):
         if s["k"] in ("await", "while"):
             return True
         if s["k"] == "if" and (_has_suspend(s["th"]) or _has_suspend(s["el"])):
+            return True
+        if s["k"] == "match" and (_has_suspend(s["default"]) or any(_has_suspend(c["body"]) for c in s["cases"])):
             return True
     return False
 
@@ -188,6 +192,12 @@ def fixed_coro_shapes():
         "stmt_only": [m(1)] + inc,
         "await_expr": [await_(bin_("and", A, B)), m(1), await_(bin_("eq", ref("v"), pint(0))), m(2)] + inc,
         "loop_exit_then_code": [while_(A, [m(1)]), m(2), await_(B), m(3)],
+        "match_await_in_case": [m(1), match_(ref("v"), [(pint(0), [await_(A), m(2)]), (pint(1), [m(3)])], default=[await_(B), m(5)])] + inc + [m(4), await_(TRUE)],
+        "match_first_statement": [match_(ref("v"), [(pint(0), [await_(A), m(1)]), (pint(2), [m(2)])])] + inc + [await_(B), m(3)],
+        "match_no_suspension": [await_(A), match_(ref("v"), [(pint(1), [m(1)]), (pint(1), [m(6)]), (pint(3), [m(2)])], default=[m(3)])] + inc,
+        "match_break_in_loop": [while_(TRUE, [await_(A), match_(ref("v"), [(pint(2), [m(1), BREAK])], default=inc), m(2)]), m(3), await_(B), m(4)],
+        "match_loop_in_case": [match_(ref("v"), [(pint(0), [while_(A, inc), m(1)])], default=[m(2)]), m(3), await_(B)] + inc,
+        "for_chain_between_awaits": [await_(A), forchain([B, A], [pint(1), pint(2)], "o", elseval=pint(3)), await_(B), forchain([A], [pint(4)], "o")],
         "comment_first": [comment("start"), await_(A), m(1), await_(B), m(2)],
         "comment_stmt_await": [comment("start"), m(1), await_(A), m(2)],
         "comment_later": [await_(A), comment("mid"), m(1), await_(B), comment("end"), m(2)],
@@ -206,6 +216,12 @@ def uses_of(body, acc=None):
             uses_of(s["el"], acc)
         elif s["k"] == "while":
             uses_of(s["body"], acc)
+        elif s["k"] == "match":
+            for c in s["cases"]:
+                uses_of(c["body"], acc)
+            uses_of(s["default"], acc)
+        elif s["k"] == "forchain":
+            acc.add(s["t"]["obj"])
     return acc
 
 
